@@ -40,7 +40,12 @@ TEvent ==
     /\ LET tv == TimeViol(E.t) \cup Chk("time-goes-backwards", E.t >= now) IN
        CASE E.e = "conn" /\ E.what \in {"outgoing", "incoming-accepted"} -> NewTransportEff(E.t) /\ Note(tv \cup NewTransportViol)
          [] E.e = "conn" /\ E.what = "incoming-refused" ->
-                Stutter /\ Note(tv \cup Chk("C10-inbound-connection-refused-with-wrong-code", E.code = 6 /\ E.sub = 7))
+                /\ mayFault' = mayFault \ {ReplaceMark}
+                /\ UNCHANGED <<fsm, open, sentOpen, gotOpen, gotKA, hold, inq, fault, closing, notified, lastRx, lastKA, connAt, apiUp, tear, leftAt>>
+                /\ Note(tv \cup Chk("C10-inbound-connection-refused-with-wrong-code", E.code = 6 /\ E.sub = 7))
+         [] E.e = "conn" /\ E.what = "incoming-offered" ->
+                /\ mayFault' = mayFault \cup {ReplaceMark} /\ Note(tv)
+                /\ UNCHANGED <<fsm, open, sentOpen, gotOpen, gotKA, hold, inq, fault, closing, notified, lastRx, lastKA, connAt, apiUp, tear, leftAt>>
          [] E.e = "rx"       -> RemoteSendEff(E.cls, E.hold) /\ Note(tv)
          [] E.e = "got"      -> ConsumeEff(E.t, cfgHold) /\ Note(tv \cup ConsumeViol \cup GotViol)
          [] E.e = "tx"       -> TxEff(E.type, E.t) /\ Note(tv \cup TxViol(E.type, E.code, E.sub, E.t))
